@@ -331,3 +331,135 @@ def r9(ctx):
         except jsonschema.exceptions.ValidationError:
             ctx.ok(key)
     ctx.floor(len(CBICONFIG_ACCEPT) + len(CBICONFIG_REJECT))
+
+
+# what the real compilers accept as an architecture operand, and which device pass it selects
+# (nvcc: --gpu-architecture / --gpu-code / -gencode take real (sm_NN) and virtual (compute_NN) names)
+ARCH_VECTORS = {
+    "nvcc": [
+        ("sm_70", ["sm_70"]),
+        ("compute_80", ["sm_80"]),
+        ("arch=compute_80,code=sm_80", ["sm_80", "sm_80"]),
+        ("arch=compute_90,code=compute_90", ["sm_90", "sm_90"]),
+        ("arch=compute_75,code=[sm_75,compute_75]", ["sm_75", "sm_75", "sm_75"]),
+    ],
+}
+
+
+@rule("C12.R10", "compiler data tables: sibling passes agree, the pass a flag value selects exists, arch patterns match every spelling the compiler accepts")
+def r10(ctx):
+    import string
+
+    repo = ctx.repo
+    defs = _compiler_defs(repo)
+    for fname, t in sorted(defs.items()):
+        loc = f"codebasin/compilers/{fname}.toml"
+        for cname, c in sorted(t.get("compiler", {}).items()):
+            passes = {p["name"]: p for p in c.get("passes", [])}
+            for opt in c.get("parser", []):
+                if opt.get("dest") != "passes":
+                    continue
+                fmt = opt.get("format")
+                flag = opt.get("flags", ["?"])[0]
+                if fmt and "$value" in fmt:
+                    # the passes this option can select: names of the shape <format with some value>
+                    rx = re.compile(re.escape(fmt).replace(re.escape("$value"), r"(.+)") + "$")
+                    fam = {n: p for n, p in passes.items() if rx.match(n)}
+                    key = f"compilers/{fname}.toml:{cname}:{flag}:sibling-passes"
+                    if fam:
+                        modes = {n: tuple(sorted(p.get("modes", []))) for n, p in fam.items()}
+                        common = max(set(modes.values()), key=lambda m: sum(1 for v in modes.values() if v == m))
+                        odd = sorted(n for n, m in modes.items() if m != common)
+                        ctx.check(not odd, key + ":modes", f"passes selected by `{flag}` enable modes {list(common)}, except {odd}: {[(n, list(modes[n])) for n in odd]} - a pass of the same family that does not enable the family's mode loses that mode's definitions", loc)
+                        # numeric families: the definitions follow one formula of the number
+                        nums = {n: rx.match(n).group(1) for n in fam}
+                        if all(v.isdigit() for v in nums.values()) and len(fam) >= 3:
+                            for n, p in sorted(fam.items()):
+                                for d in p.get("defines", []):
+                                    m = re.fullmatch(r"(\w+)=(\d+)", d)
+                                    if m:
+                                        ratio = {int(q.split("=")[1]) / int(nums[k]) for k, pp in fam.items() for q in pp.get("defines", []) if q.startswith(m.group(1) + "=") and int(nums[k])}
+                                        ctx.check(len(ratio) == 1, key + f":{m.group(1)}", f"`{m.group(1)}` is not the same multiple of the architecture number in every pass of the family: ratios {sorted(ratio)}", loc)
+                                        break
+                    for dflt in opt.get("default", []) or []:
+                        ctx.check(dflt in passes, key + f":default:{dflt}", f"default pass `{dflt}` of `{flag}` is not defined", loc)
+                if opt.get("action") == "extend_match" and cname in ARCH_VECTORS:
+                    pat = opt.get("pattern", "")
+                    for value, want in ARCH_VECTORS[cname]:
+                        got = re.findall(pat, value)
+                        if fmt:
+                            got = [string.Template(fmt).substitute(value=v) for v in got]
+                        ctx.check(got == want, f"compilers/{fname}.toml:{cname}:{flag}:arch:{value}", f"`{cname} {flag}={value}` selects passes {got}; the compiler compiles for {want} (virtual `compute_NN` names select the same device code as `sm_NN`)", loc)
+    ctx.floor(8)
+
+
+def _arg_label(a):
+    """the name an argument expression goes by: x, obj.x, d['x'], d.get('x', ...)"""
+    if isinstance(a, ast.Name):
+        return a.id
+    if isinstance(a, ast.Attribute):
+        return a.attr
+    if isinstance(a, ast.Subscript) and isinstance(a.slice, ast.Constant) and isinstance(a.slice.value, str):
+        return a.slice.value
+    if isinstance(a, ast.Call) and isinstance(a.func, ast.Attribute) and a.func.attr in ("get", "pop") and a.args and isinstance(a.args[0], ast.Constant) and isinstance(a.args[0].value, str):
+        return a.args[0].value
+    return None
+
+
+def _misbound(labels, ps):
+    return [(i, l) for i, l in enumerate(labels) if l in ps and i < len(ps) and ps[i] != l and ps.index(l) < len(labels) and labels[ps.index(l)] != l]
+
+
+@rule("C12.R11", "in the configuration / compiler-emulation code, arguments are bound to the parameters they are named after: a value labelled with the name of one parameter is not passed in the position of another")
+def r11(ctx):
+    repo = ctx.repo
+    # callee signatures by (unique) name: functions, and classes through __init__ or dataclass fields
+    sigs = {}
+    byname = {}
+    for f in repo.all_functions():
+        byname.setdefault(f.name, []).append(f)
+    for name, fs in byname.items():
+        if len(fs) == 1 and name != "__init__":
+            a = fs[0].node.args
+            ps = [x.arg for x in a.posonlyargs + a.args]
+            if ps and ps[0] in ("self", "cls"):
+                ps = ps[1:]
+            sigs[name] = ps
+    for m in repo.modules.values():
+        for c in m.classes.values():
+            init = c.methods.get("__init__")
+            if init is not None:
+                ps = [x.arg for x in init.node.args.posonlyargs + init.node.args.args][1:]
+            else:
+                ps = [s.target.id for s in c.node.body if isinstance(s, ast.AnnAssign) and isinstance(s.target, ast.Name)]
+                for b in c.bases:
+                    ps = [s.target.id for s in b.node.body if isinstance(s, ast.AnnAssign) and isinstance(s.target, ast.Name)] + ps
+            if ps and c.name not in sigs:
+                sigs[c.name] = ps
+    n = 0
+    for f in repo.all_functions():
+        if f.module.short not in ("config", "finder", "platform", "__init__"):
+            continue  # the token constructors of the preprocessor pass positional place-holders ('EXPANSION' for a line): out of this property's scope
+        for call in f.calls():
+            name = call.func.attr if isinstance(call.func, ast.Attribute) else call.func.id if isinstance(call.func, ast.Name) else None
+            if name == "cls" and f.cls is not None:
+                name = f.cls.name
+            ps = sigs.get(name)
+            if not ps or len(call.args) < 2 or any(isinstance(a, ast.Starred) for a in call.args):
+                continue
+            labels = [_arg_label(a) for a in call.args]
+            if sum(1 for l in labels if l in ps) < 2:
+                continue
+            n += 1
+            bad = _misbound(labels, ps)
+            ctx.check(not bad, f"{f.key}:call:{name}:{','.join(str(l) for l in labels)}", f"`{u(call)[:90]}`: " + "; ".join(f"the value named `{l}` is passed as parameter `{ps[i]}`" for i, l in bad) + f" (parameters of {name}: {ps})", f.loc(call))
+    ctx.stats["calls_with_named_positionals"] = n
+    # the tree has (today) no such call in these modules: the rule is exercised on a built-in example on every run
+    ps = ["name", "defines", "include_paths", "include_files"]
+    good = ast.parse("P(t['name'], t.get('defines', []), t.get('include_paths', []), t.get('include_files', []))").body[0].value
+    swapped = ast.parse("P(t['name'], t.get('defines', []), t.get('include_files', []), t.get('include_paths', []))").body[0].value
+    if _misbound([_arg_label(a) for a in good.args], ps) or not _misbound([_arg_label(a) for a in swapped.args], ps):
+        raise AnalysisError("C12.R11: built-in example not decided as expected")
+    ctx.ok("self-example:correct-order-silent")
+    ctx.ok("self-example:swapped-order-reported")
+    ctx.floor(2)
